@@ -6,7 +6,8 @@ the line protocol of lean/XgiModel/C02/Drive.lean (driver `DHG`).
 
 The network under test lives in a `Box`: `copy` and `cleanup(in_place=False)` return a *new* DiHypergraph and
 the history continues on the returned object (box.H is replaced), exactly as the model's `copy` / `cleanup`
-ops are defined.
+ops are defined.  The same holds for the two other clone routes, `pickle` (pickle round trip) and `construct`
+(`DiHypergraph(DH, **attr)`), which are generated only when the caller's `weights` name them.
 
 Naming (checked against the code): `DH.edges.dimembers(e) = (tail, head) = (_edge[e]["in"], _edge[e]["out"])`,
 `DH.nodes.dimemberships(n) = (in, out) = (_node[n]["in"], _node[n]["out"])` with in = edges whose HEAD holds n,
@@ -185,6 +186,13 @@ class Gen:
         if name == "freeze":
             self.is_frozen = True
             return {"op": name}
+        # clone routes (lean/XgiModel/C02/Copy.lean); not in OPS: generated only when `weights` names them
+        if name == "pickle":
+            self.is_frozen = False
+            return {"op": name}
+        if name == "construct":
+            self.is_frozen = False
+            return {"op": name, "attr": enc_attrs_req(self.attrs(0.4))}
         raise AssertionError(name)
 
 
@@ -353,6 +361,13 @@ def call(box, op):
         return xgi.convert_labels_to_integers(H, label_attribute=op["label_attribute"], in_place=True)
     if name == "freeze":
         return H.freeze()
+    if name == "pickle":
+        import pickle
+        box.H = pickle.loads(pickle.dumps(H))
+        return
+    if name == "construct":
+        box.H = xgi.DiHypergraph(H, **_attrs(op["attr"]))
+        return
     raise AssertionError(name)
 
 
